@@ -1,6 +1,6 @@
 From Coq Require Import List Arith ZArith Bool.
 Import ListNotations.
-From PF Require Import Arr Net Elev Upscale Glue RunC15.
+From PF Require Import Arr Net Elev Upscale UpscaleD8 Glue RunC15.
 Local Open Scope Z_scope.
 
 Definition sent_out (n : nat) (l : list nat) : list Z :=
@@ -33,4 +33,9 @@ Definition run_c09 (k : Z) (args : list (list Z)) : list (list Z) :=
     | [a; b; c] => [[zb (RunC15.zlist_eqb a (arg 6 args)); zb (RunC15.zlist_eqb b (arg 7 args)); zb (RunC15.zlist_eqb c (arg 8 args))]]
     | _ => [[0]]
     end
+  else if k =? 914 then
+    (* the effective-area map of the implementation (arg 5) contains the middle rows and columns of every cell, and the fine
+       links join 8-neighbouring pixels: the hypotheses of eam_links_d8 *)
+    [[zb (check_cross sds (bs (arg 5 args)) (argn 3 args) (argn 4 args));
+      zb (forallb (fun t => (length sds <=? sd sds t)%nat || in_d8 t (sd sds t) (argn 3 args)) (seq 0 (length sds)))]]
   else [[-999]].
